@@ -142,6 +142,15 @@ func c16Doc(pg c16Page, skel string, k int, odd map[int]int) string {
 }
 
 func c16Enumerate(tier string, emit func(*eng.Case)) {
+	// documents of the other checks under their page URL (or a default), both algorithms
+	crossEmit("C16", tier, "xpager", 1, func(c *eng.Case) {
+		if c.URL == "" {
+			c.URL = "http://example.com/a/b/story.html"
+		}
+		for algo := 0; algo < 2; algo++ {
+			emit(&eng.Case{Kind: "xpager", HTML: c.HTML, URL: c.URL, Algo: algo, P: c.P})
+		}
+	})
 	maxOdd := 2
 	if tier == "thorough" {
 		maxOdd = 3
@@ -272,10 +281,11 @@ func init() {
 	eng.Register(&eng.Prop{
 		ID:        "C16",
 		DesignRef: "§5 C16",
-		Rule: "7 page-URL families (query, query whose last value ends in a slash, relative query, path with trailing slash, directory with trailing slash, escaped path, https with port and relative file names) x current page k in 1..3 x 6 pager skeletons (numbered, numbered + Prev/Next anchors, Prev/Next only, two pagers, the first two again with a <base href> on another host) x both algorithms; every assignment of <= 2 (quick: two odd slots for three of the families, one for the others) / <= 3 (thorough) link slots to one of 24 odd hrefs (escaped #, & and = inside a query value, javascript:, empty, #, mailto:, off-site, scheme-relative, look-alike host, upper-case host, userinfo, other port, relative file/dir, ../, fragment, ftp:, data:, unparseable, missing href, space in path, JavaScript:). " +
+		Rule: "7 page-URL families (query, query whose last value ends in a slash, relative query, path with trailing slash, directory with trailing slash, escaped path, https with port and relative file names) x current page k in 1..3 x 6 pager skeletons (numbered, numbered + Prev/Next anchors, Prev/Next only, two pagers, the first two again with a <base href> on another host) x both algorithms; every assignment of <= 2 (quick: two odd slots for three of the families, one for the others) / <= 3 (thorough) link slots to one of 24 odd hrefs (escaped #, & and = inside a query value, javascript:, empty, #, mailto:, off-site, scheme-relative, look-alike host, upper-case host, userinfo, other port, relative file/dir, ../, fragment, ftp:, data:, unparseable, missing href, space in path, JavaScript:)." + crossRule + " (under both algorithms) " +
 			"Oracle: a non-empty NextPage/PrevPage parses, is http(s), has the page's host (case-insensitively), and equals - after dropping the fragment and one trailing slash, paths compared decoded - the RFC 3986 resolution of some anchor's href against the page URL as supplied. Non-trivial = a link was returned and the document holds >= 1 non-fetchable/off-site href.",
 		Enumerate: c16Enumerate,
 		Check:     c16Check,
+		Prepare:   func(tier string) { CrossCorpus(tier) },
 		Bounds: func(tier string) map[string]any {
 			m := 2
 			if tier == "thorough" {
